@@ -383,7 +383,12 @@ PropMsg(e, out, h0, cap) ==
                   IN /\ verdict' = {[g |-> g, c |-> Cause(g, e, r, A2, O2, h0)] : g \in Guards(e, r, A2, O2, h0, cap)}
                                    \cup (IF r.t = "ack" /\ a = e.reff THEN {} ELSE renew)
                                    \* C18: every acknowledgement is durable: the lease file holds the binding with its current expiry
-                                   \cup (IF r.t = "ack" /\ InNet(1, a) /\ ~(\E f \in file' : f.k = k /\ f.mac = e.m /\ f.ip = a /\ f.cur)
+                                   \* (the file judged is the one on disk when the ACK was handed to the connection) -- and so does
+                                   \* every other binding that is still acknowledged (smallest reading)
+                                   \cup (IF r.t = "ack" /\ InNet(1, a)
+                                            /\ (\/ ~(\E f \in file' : f.k = k /\ f.mac = e.m /\ f.ip = a /\ f.cur)
+                                                \/ \E j \in CIDs \ {k} : A2[j] # Nil /\ InNet(1, A2[j].ip)
+                                                       /\ ~(\E f \in file' : f.k = j /\ f.mac = A2[j].mac /\ f.ip = A2[j].ip))
                                          THEN {[g |-> "C18_AckDurable", c |-> "none"]} ELSE {})
                      /\ IF r.t = "offer"
                         THEN /\ obs' = [O2 EXCEPT ![k] = [o2 EXCEPT !.offer = a, !.xid = r.xid, !.old = FALSE, !.void = FALSE, !.omac = e.m, !.ocap = cap, !.req = req, !.dup = dup, !.stl = stl,
